@@ -128,6 +128,55 @@ impl PV for Decibels {
 	const CTOR: &'static str = "CP32";
 }
 
+/// `Parameter<ClockSpeed>`: the unit of a generated value is derived from the value itself (a hash of its bits), so that
+/// the generic history generator produces all nine (unit of the start, unit of the target) combinations.
+/// Encoding shared with C06/RunOwners.v `cs_of_bits` / `cs_to_bits`: unit * 2^64 + bits of the number; NaN = -(unit + 1).
+fn cs_unit_of(x: f64) -> u8 {
+	((x.to_bits() ^ 0xC5).wrapping_mul(0x9E37_79B9_7F4A_7C15) >> 33) as u8 % 3
+}
+fn cs_mk(unit: u8, x: f64) -> kira::clock::ClockSpeed {
+	match unit {
+		0 => kira::clock::ClockSpeed::SecondsPerTick(x),
+		1 => kira::clock::ClockSpeed::TicksPerSecond(x),
+		_ => kira::clock::ClockSpeed::TicksPerMinute(x),
+	}
+}
+fn cs_parts(v: kira::clock::ClockSpeed) -> (u8, f64) {
+	match v {
+		kira::clock::ClockSpeed::SecondsPerTick(x) => (0, x),
+		kira::clock::ClockSpeed::TicksPerSecond(x) => (1, x),
+		kira::clock::ClockSpeed::TicksPerMinute(x) => (2, x),
+	}
+}
+/// the speed expressed in unit `unit`
+fn cs_in_unit(unit: u8, v: kira::clock::ClockSpeed) -> f64 {
+	match unit {
+		0 => v.as_seconds_per_tick(),
+		1 => v.as_ticks_per_second(),
+		_ => v.as_ticks_per_minute(),
+	}
+}
+fn cs_code(v: kira::clock::ClockSpeed) -> i128 {
+	let (u, x) = cs_parts(v);
+	if x.is_nan() {
+		-(u as i128 + 1)
+	} else {
+		((u as i128) << 64) | x.to_bits() as i128
+	}
+}
+impl PV for kira::clock::ClockSpeed {
+	fn of(x: f64) -> Self {
+		cs_mk(cs_unit_of(x), x)
+	}
+	fn bits(self) -> i128 {
+		cs_code(self)
+	}
+	fn bits_str(x: f64) -> String {
+		z(cs_code(Self::of(x)))
+	}
+	const CTOR: &'static str = "CPCS";
+}
+
 fn tgt_value<V: PV>(ids: &Ids, t: &Tgt) -> Value<V> {
 	match t {
 		Tgt::Fixed(x) => Value::Fixed(V::of(*x)),
@@ -374,7 +423,7 @@ pub fn run(args: &Args) {
 		"From Coq Require Import ZArith List. Import ListNotations. Open Scope Z_scope.\nFrom KV Require Import Base.Corr C06.Run C06.RunOwners.\nFrom KV Require C17.Run.",
 		"arun",
 		150,
-		"one case = one history of set()/update() calls on a real kira::Parameter (f64 or Decibels) with generated targets (fixed / modulator-mapped), durations (0, sub-update, dyadic, arbitrary), easings, start times (immediate / delayed / clock present, paused, absent) and update partitions; or one history of handle commands and callbacks (random partitions, not multiples of the internal buffer, one-frame callbacks) on a real AudioManager with the parameter inside its owner: static / streaming sound (volume, panning, playback rate while Playing / Pausing / Paused / WaitingToResume / start pending), sub-track + send route + send track + main track volumes, tweener and LFO modulators, a value linked at run time to the listener distance; distinct = distinct history text; non-trivial = contains at least one set and two updates",
+		"one case = one history of set()/update() calls on a real kira::Parameter (f64, Decibels or ClockSpeed in its three units) with generated targets (fixed / modulator-mapped), durations (0, sub-update, dyadic, arbitrary), easings, start times (immediate / delayed / clock present, paused, absent) and update partitions; or one history of handle commands and callbacks (random partitions, not multiples of the internal buffer, one-frame callbacks) on a real AudioManager with the parameter inside its owner: static / streaming sound (volume, panning, playback rate while Playing / Pausing / Paused / WaitingToResume / start pending; the fade volume of a sound played with a fade-in tween of zero / non-zero duration and immediate / delayed / clock start), sub-track + send route + send track + main track volumes, tweener and LFO modulators, a value linked at run time to the listener distance; distinct = distinct history text; non-trivial = contains at least one set and two updates",
 	);
 	let ids = ids();
 
@@ -401,8 +450,18 @@ pub fn run(args: &Args) {
 		let boundary = i % 7 == 6;
 		let (init, default, ops) = gen_history(&mut rng, dyadic, boundary);
 		let use32 = i % 4 == 3;
-		let (obs, tab, vals) = if use32 { run_history::<Decibels>(&ids, &init, default, &ops) } else { run_history::<f64>(&ids, &init, default, &ops) };
-		let term = if use32 {
+		let usecs = i % 8 == 5;
+		let (obs, tab, vals) = if usecs {
+			run_history::<kira::clock::ClockSpeed>(&ids, &init, default, &ops)
+		} else if use32 {
+			run_history::<Decibels>(&ids, &init, default, &ops)
+		} else {
+			run_history::<f64>(&ids, &init, default, &ops)
+		};
+		let term = if usecs {
+			type CS = kira::clock::ClockSpeed;
+			format!("AOwn (CPCS {} {} [{}] {})", tgt_term::<CS>(&init).replace("TFixed", "C06.Run.TFixed").replace("TMod", "C06.Run.TMod"), CS::bits_str(default), ops.iter().map(|o| format!("C06.Run.{}", op_term::<CS>(o).replace("(TFixed", "(C06.Run.TFixed").replace("(TMod", "(C06.Run.TMod").replace("(SDel", "(C06.Run.SDel").replace("(SClk", "(C06.Run.SClk").replace("SImm", "C06.Run.SImm"))).collect::<Vec<_>>().join("; "), tab_term(&tab))
+		} else if use32 {
 			format!("ABase (CP32 {} {} [{}] {})", tgt_term::<Decibels>(&init), Decibels::bits_str(default), ops.iter().map(|o| op_term::<Decibels>(o)).collect::<Vec<_>>().join("; "), tab_term(&tab))
 		} else {
 			format!("ABase (CP64 {} {} [{}] {})", tgt_term::<f64>(&init), f64::bits_str(default), ops.iter().map(|o| op_term::<f64>(o)).collect::<Vec<_>>().join("; "), tab_term(&tab))
@@ -414,7 +473,7 @@ pub fn run(args: &Args) {
 			}
 			h
 		});
-		s.case(if use32 { "history_f32" } else { "history_f64" }, term.clone(), &obs, Some(key));
+		s.case(if usecs { "history_clock_speed" } else if use32 { "history_f32" } else { "history_f64" }, term.clone(), &obs, Some(key));
 		for (a, b) in &vals {
 			if a.is_nan() {
 				s.fail(term.clone(), format!("update {}: previous_value() differs from the value before the update (discontinuity)", b), None);
@@ -524,6 +583,112 @@ pub fn run(args: &Args) {
 				s.fail(format!("zero-duration tween {v0:?}->{tg:?} {e:?}"), format!("value {:?} after the next update", p.value()), None);
 			}
 			s.eval_only("zero_duration_scenario");
+		}
+	}
+	// ---- the same law scenarios for Parameter<ClockSpeed>: the law is stated in the unit the target is given in
+	// (seconds per tick is the reciprocal of the other two, so a ramp that is linear in one is not in the other)
+	{
+		use kira::clock::ClockSpeed as CS;
+		let mut r2 = Rng::new(args.seed ^ 0xC06_C5).fork();
+		let unit_name = ["seconds per tick", "ticks per second", "ticks per minute"];
+		for i in 0..(n / 3).max(60) {
+			let e = gen_easing(&mut r2, false);
+			let (us, ut) = ((i % 3) as u8, ((i / 3) % 3) as u8);
+			let v0 = (r2.below(127) + 1) as f64 / 16.0; // positive dyadics: a speed
+			let tg = (r2.below(127) + 1) as f64 / 16.0;
+			let (start, target) = (cs_mk(us, v0), cs_mk(ut, tg));
+			let dur_units = r2.below(60) + 1;
+			let dur = Duration::from_nanos(dur_units * 1_953_125);
+			let total_units = r2.below(dur_units + 1);
+			let split = |r: &mut Rng, mut total: u64| -> Vec<u64> {
+				let mut v = vec![];
+				while total > 0 {
+					let k = r.below(total) + 1;
+					v.push(k);
+					total -= k;
+				}
+				if v.is_empty() {
+					v.push(0);
+				}
+				v
+			};
+			let run = |parts: &[u64], extra: &[u64]| -> (Vec<CS>, Vec<CS>) {
+				let mut p = Parameter::<CS>::new(Value::Fixed(start), start);
+				p.set(Value::Fixed(target), Tween { start_time: StartTime::Immediate, duration: dur, easing: e });
+				let info = MockInfoBuilder::new().build();
+				let mut a = vec![];
+				for u in parts {
+					p.update(*u as f64 / 512.0, &info);
+					a.push(p.value());
+				}
+				let mut b = vec![];
+				for u in extra {
+					p.update(*u as f64 / 512.0, &info);
+					b.push(p.value());
+				}
+				(a, b)
+			};
+			let p1 = split(&mut r2, total_units);
+			let p2 = split(&mut r2, total_units);
+			let extra = vec![dur_units - total_units, 0, 3, 1];
+			let (a1, b1) = run(&p1, &extra);
+			let (a2, _) = run(&p2, &extra);
+			s.eval_only("law_scenario_clock_speed");
+			let desc = format!("Parameter<ClockSpeed> {start:?} -> {target:?}, {e:?}, duration {dur_units}/512 s, updates (in 1/512 s) {p1:?} vs {p2:?}, then {extra:?}");
+			if total_units < dur_units {
+				let (x1, x2) = (*a1.last().unwrap(), *a2.last().unwrap());
+				if cs_code(x1) != cs_code(x2) {
+					s.fail(desc.clone(), format!("value depends on the partition of time: {x1:?} vs {x2:?}"), None);
+				}
+				let a = cs_in_unit(ut, start);
+				let x = total_units as f64 / dur_units as f64;
+				let want = a + (tg - a) * ease_pub(e, x);
+				let got = cs_in_unit(ut, x1);
+				if total_units > 0 && !((got - want).abs() <= 1e-9 * (1.0 + want.abs())) {
+					s.fail(
+						desc.clone(),
+						format!(
+							"after {total_units}/512 s the speed is {x1:?} = {got:?} {}; start + (target - start) x ease(elapsed / duration) = {want:?} {} (start = {a:?}, target = {tg:?})",
+							unit_name[ut as usize], unit_name[ut as usize]
+						),
+						None,
+					);
+				}
+				let (lo, hi) = if a <= tg { (a, tg) } else { (tg, a) };
+				for v in a1.iter().chain(a2.iter()) {
+					let g = cs_in_unit(ut, *v);
+					if positive_power(e) && !(g >= lo - 1e-9 * (1.0 + lo.abs()) && g <= hi + 1e-9 * (1.0 + hi.abs())) {
+						s.fail(desc.clone(), format!("value {v:?} leaves the interval between start and target"), None);
+					}
+				}
+			}
+			for v in &b1 {
+				if cs_code(*v) != cs_code(target) {
+					s.fail(desc.clone(), format!("after the end of the tween the value is {v:?}, not the target {target:?}"), None);
+				}
+			}
+			// zero duration (immediate and delayed start): old value until the start, the target at the next update
+			if i % 4 == 0 {
+				let delay_units = if i % 8 == 0 { 0 } else { r2.below(12) + 2 };
+				let st = if delay_units == 0 { StartTime::Immediate } else { StartTime::Delayed(Duration::from_nanos(delay_units * 1_953_125)) };
+				let mut p = Parameter::<CS>::new(Value::Fixed(start), start);
+				p.set(Value::Fixed(target), Tween { start_time: st, duration: Duration::ZERO, easing: e });
+				let info = MockInfoBuilder::new().build();
+				let mut t = 0;
+				let d2 = format!("Parameter<ClockSpeed> {start:?} -> {target:?}, zero duration, start after {delay_units}/512 s, updates of 1/512 s");
+				for _ in 0..delay_units + 2 {
+					p.update(1.0 / 512.0, &info);
+					t += 1;
+					let v = p.value();
+					if t <= delay_units && cs_code(v) != cs_code(start) {
+						s.fail(d2.clone(), format!("moved to {v:?} at t={t}/512 s, before its start time"), None);
+					}
+					if t >= delay_units + 1 && cs_code(v) != cs_code(target) {
+						s.fail(d2.clone(), format!("value {v:?} at t={t}/512 s: a zero-duration tween takes effect at the next update after its start"), None);
+					}
+				}
+				s.eval_only("zero_duration_scenario_clock_speed");
+			}
 		}
 	}
 	owners(&mut s, &mut rng, args);
@@ -791,6 +956,9 @@ struct SndScen {
 	rate0: f64,
 	pan0: f32,
 	st: Start,
+	/// the fade-in tween given in the sound's settings (the fade volume is a parameter created at silence and told to
+	/// move to 0 dB with this tween when the sound is constructed)
+	fade_in: Option<OTw>,
 	mode: &'static str,
 	cbs: Vec<SCb>,
 }
@@ -868,7 +1036,7 @@ fn run_snd(sc: &SndScen) -> SndTrace {
 		let cids = vec![clock.id()];
 		let mut h = if sc.streaming {
 			let calls = Arc::new(AtomicU64::new(0));
-			let settings = StreamingSoundSettings::new().volume(Decibels(sc.vol0)).playback_rate(PlaybackRate(sc.rate0)).panning(Panning(sc.pan0)).start_time(mk_ostart(&cids, &sc.st));
+			let settings = StreamingSoundSettings::new().volume(Decibels(sc.vol0)).playback_rate(PlaybackRate(sc.rate0)).panning(Panning(sc.pan0)).start_time(mk_ostart(&cids, &sc.st)).fade_in_tween(sc.fade_in.as_ref().map(|t| mk_otween(&cids, t)));
 			let data = StreamingSoundData::from_decoder(DcDecoder { amp: sc.src, calls: calls.clone() }).with_settings(settings);
 			let h = mgr.play(data).unwrap();
 			// the decoder thread keeps ahead: a second `decode` call means the first packet (4096 frames) is in the ring
@@ -879,7 +1047,7 @@ fn run_snd(sc: &SndScen) -> SndTrace {
 			assert!(calls.load(Ordering::SeqCst) >= 2, "decoder thread did not start");
 			SndH::Sm(h)
 		} else {
-			let settings = StaticSoundSettings::new().volume(Decibels(sc.vol0)).playback_rate(PlaybackRate(sc.rate0)).panning(Panning(sc.pan0)).start_time(mk_ostart(&cids, &sc.st));
+			let settings = StaticSoundSettings::new().volume(Decibels(sc.vol0)).playback_rate(PlaybackRate(sc.rate0)).panning(Panning(sc.pan0)).start_time(mk_ostart(&cids, &sc.st)).fade_in_tween(sc.fade_in.as_ref().map(|t| mk_otween(&cids, t)));
 			let mut frames = dc_frames();
 			if sc.src != 0.5 {
 				frames = Arc::from(vec![Frame::from_mono(sc.src); 1 << 14]);
@@ -924,6 +1092,21 @@ fn snd_term(sc: &SndScen, tr: &SndTrace) -> String {
 		.map(|(cb, t)| format!("SCb [{}] {}", cb.cmds.iter().map(scmd_term).collect::<Vec<_>>().join("; "), chunks_term(&t.chunks)))
 		.collect::<Vec<_>>()
 		.join("; ");
+	if let Some(f) = &sc.fade_in {
+		return format!(
+			"AOwn (CSndF {} {} {} {} {} {} {} {} [{}] {})",
+			sc.streaming as u8,
+			OSR,
+			f32_bits_z(sc.src),
+			f32_bits_z(sc.vol0),
+			f64_bits_z(sc.rate0),
+			f32_bits_z(sc.pan0),
+			ostart_term(&sc.st),
+			otw_term(f),
+			cbs,
+			tab32_term(&tr.tab)
+		);
+	}
 	format!(
 		"AOwn (CSnd {} {} {} {} {} {} {} [{}] {})",
 		sc.streaming as u8,
@@ -951,8 +1134,9 @@ fn snd_obs(tr: &SndTrace) -> Vec<i128> {
 }
 
 /// what a chunk-end frame must be when the fade is at unity
-fn expected_lr(src: f64, vol_db: f64, pan: f64) -> (f64, f64) {
-	let a = src * db_amp(vol_db as f32 as f64);
+/// (`fade_db` = 0) or at `fade_db`
+fn expected_lr_faded(src: f64, vol_db: f64, pan: f64, fade_db: f64) -> (f64, f64) {
+	let a = src * db_amp(fade_db as f32 as f64) * db_amp(vol_db as f32 as f64);
 	let (l, r) = if pan == 0.0 {
 		(a, a)
 	} else {
@@ -970,6 +1154,14 @@ fn snd_monitor(sc: &SndScen, tr: &SndTrace, checks: &mut (u64, u64, u64)) -> Vec
 	let mut vol = Law::new(sc.vol0 as f64);
 	let mut rate = Law::new(sc.rate0);
 	let mut pan = Law::new(sc.pan0 as f64);
+	// the fade volume: a parameter at silence (-60 dB) told at construction to move to 0 dB with the fade-in tween.
+	// Fade-in scenarios start at once and are never paused: the sound plays (its position advances) from the first
+	// frame on, however quiet, so a silent chunk is judged like any other.
+	let mut fade = Law::new(if sc.fade_in.is_some() { -60.0 } else { 0.0 });
+	if let Some(f) = &sc.fade_in {
+		fade.set(0.0, f);
+	}
+	let faded = sc.fade_in.is_some();
 	let mut state_before = PlaybackState::Playing;
 	let mut prev_pos: Option<(f64, Option<f64>)> = None; // position published at the start of the previous callback, advance expected during it
 	for (k, (cb, t)) in tr.exec.iter().zip(tr.cbs.iter()).enumerate() {
@@ -1014,9 +1206,10 @@ fn snd_monitor(sc: &SndScen, tr: &SndTrace, checks: &mut (u64, u64, u64)) -> Vec
 			vol.advance(dtc, clocks);
 			rate.advance(dtc, clocks);
 			pan.advance(dtc, clocks);
+			fade.advance(dtc, clocks);
 			let frames = &t.out[off * 2..(off + len) * 2];
 			off += len;
-			let silent = frames.iter().all(|x| *x == 0.0);
+			let silent = !faded && frames.iter().all(|x| *x == 0.0);
 			if silent {
 				all_audible = false;
 				was_silent = true;
@@ -1041,9 +1234,21 @@ fn snd_monitor(sc: &SndScen, tr: &SndTrace, checks: &mut (u64, u64, u64)) -> Vec
 					checks.1 += 1;
 				}
 				let (l, r) = (frames[(len - 1) * 2] as f64, frames[(len - 1) * 2 + 1] as f64);
-				let (wl, wr) = expected_lr(sc.src as f64, vol.value(), pan.value());
+				let (wl, wr) = expected_lr_faded(sc.src as f64, vol.value(), pan.value(), fade.value());
 				let tol = |w: f64| 2e-3 + 1e-3 * w.abs();
-				if (l - wl).abs() > tol(wl) || (r - wr).abs() > tol(wr) {
+				if faded && ((l - wl).abs() > tol(wl) || (r - wr).abs() > tol(wr)) {
+					let heard = (l.abs().max(r.abs())) / sc.src as f64;
+					fails.push(format!(
+						"callback {k}, chunk ending at frame {off}: last frame is ({l:?}, {r:?}), i.e. {:.3} dB relative to the source; the tween laws of the processed time give ({wl:?}, {wr:?}) = fade-in volume {:.3} dB [{}] + volume {:.3} dB [{}], panning {:.4} [{}]",
+						20.0 * heard.log10(),
+						fade.value(),
+						fade.describe(),
+						vol.value(),
+						vol.describe(),
+						pan.value(),
+						pan.describe()
+					));
+				} else if (l - wl).abs() > tol(wl) || (r - wr).abs() > tol(wr) {
 					let e2 = l * l + r * r;
 					let a_obs = (e2 / 2.0).sqrt() / sc.src as f64;
 					let pan_obs = if e2 > 0.0 { (r * r - l * l) / e2 } else { 0.0 };
@@ -1167,6 +1372,7 @@ fn gen_snd(r: &mut Rng, streaming: bool) -> SndScen {
 		rate0: *r.pick(&[1.0f64, 1.0, 0.5, 2.0]),
 		pan0: *r.pick(&[0.0f32, 0.0, -0.5, 0.25]),
 		st,
+		fade_in: None,
 		mode,
 		cbs,
 	}
@@ -1505,7 +1711,8 @@ enum RCmd {
 	LfoAmp(f64, OTw),
 	LfoOff(f64, OTw),
 	LfoFreq(f64, OTw),
-	ClockSpeed(f64, OTw),
+	/// unit (0 seconds per tick, 1 ticks per second, 2 ticks per minute), the number in that unit
+	ClockSpeed(u8, f64, OTw),
 	Listener(f32, OTw),
 }
 #[derive(Clone, Debug)]
@@ -1610,7 +1817,7 @@ fn run_ren(sc: &RenScen) -> RenTrace {
 					RCmd::LfoAmp(v, t) => lfo.set_amplitude(*v, mk_otween(&none, t)),
 					RCmd::LfoOff(v, t) => lfo.set_offset(*v, mk_otween(&none, t)),
 					RCmd::LfoFreq(v, t) => saw.set_frequency(*v, mk_otween(&none, t)),
-					RCmd::ClockSpeed(v, t) => clock.set_speed(ClockSpeed::TicksPerSecond(*v), mk_otween(&none, t)),
+					RCmd::ClockSpeed(u, v, t) => clock.set_speed(cs_mk(*u, *v), mk_otween(&none, t)),
 					RCmd::Listener(v, t) => listener.set_position(v3(*v), mk_otween(&none, t)),
 				}
 			}
@@ -1680,6 +1887,7 @@ fn ren_monitor(sc: &RenScen, tr: &RenTrace, checks: &mut u64) -> Vec<String> {
 	let mut off = Law::new(sc.lfo_off0);
 	let mut freq = Law::new(sc.lfo_freq0);
 	let mut speed = Law::new(sc.speed0);
+	let mut speed_unit = 1u8; // the clock is created with TicksPerSecond(speed0)
 	let mut lis = Law::new(sc.lis0 as f64);
 	let nc: ClockSnap = vec![];
 	let mut clock_prev: Option<f64> = None;
@@ -1692,7 +1900,13 @@ fn ren_monitor(sc: &RenScen, tr: &RenTrace, checks: &mut u64) -> Vec<String> {
 				RCmd::LfoAmp(v, t) => amp.set(*v, t),
 				RCmd::LfoOff(v, t) => off.set(*v, t),
 				RCmd::LfoFreq(v, t) => freq.set(*v, t),
-				RCmd::ClockSpeed(v, t) => speed.set(*v, t),
+				RCmd::ClockSpeed(u, v, t) => {
+					// the law of a clock speed is stated in the unit of the target: re-express the current value in it
+					let cur = cs_in_unit(*u, cs_mk(speed_unit, speed.value()));
+					speed = Law::new(cur);
+					speed.set(*v, t);
+					speed_unit = *u;
+				}
 				RCmd::Listener(v, t) => lis.set(*v as f64, t),
 			}
 		}
@@ -1753,9 +1967,14 @@ fn ren_monitor(sc: &RenScen, tr: &RenTrace, checks: &mut u64) -> Vec<String> {
 			if let Some((ticking, ticks, fr)) = c.clock {
 				let now = ticks as f64 + fr;
 				if let (true, Some(p0)) = (ticking, clock_prev) {
-					let want = speed.value() * dtc;
+					let want = cs_mk(speed_unit, speed.value()).as_ticks_per_second() * dtc;
 					if ((now - p0) - want).abs() > 1e-9 * (1.0 + want.abs()) {
-						fails.push(format!("{at}: the clock advanced by {:?} ticks, speed by its tween law x chunk time = {want:?} [{}]", now - p0, speed.describe()));
+						fails.push(format!(
+							"{at}: the clock advanced by {:?} ticks, speed by its tween law (stated in {}) x chunk time = {want:?} [{}]",
+							now - p0,
+							["seconds per tick", "ticks per second", "ticks per minute"][speed_unit as usize],
+							speed.describe()
+						));
 					}
 				}
 				if ticking {
@@ -1799,7 +2018,7 @@ fn gen_ren(r: &mut Rng) -> RenScen {
 					cmds.push(if r.chance(1, 2) { RCmd::LfoAmp(x, gen_rtw(r)) } else { RCmd::LfoOff(x, gen_rtw(r)) })
 				}
 				3 => cmds.push(RCmd::LfoFreq(*r.pick(&[0.5, 1.0, 3.0, 7.5]), gen_rtw(r))),
-				4 => cmds.push(RCmd::ClockSpeed(*r.pick(&[1.0, 10.0, 64.0, 100.5, 0.25]), gen_rtw(r))),
+				4 => cmds.push(RCmd::ClockSpeed(1, *r.pick(&[1.0, 10.0, 64.0, 100.5, 0.25]), gen_rtw(r))),
 				_ => cmds.push(RCmd::Listener(*r.pick(&[0.0f32, 1.0, -2.5, 10.1, 0.3]), gen_rtw(r))),
 			}
 			if r.chance(1, 3) {
@@ -2229,6 +2448,132 @@ fn owners_distance(s: &mut Session, rng: &mut Rng, n: u64) {
 	}
 }
 
+// -----------------------------------------------------------------------------------------------------
+// (a') sounds played WITH A FADE-IN TWEEN (settings.fade_in_tween): the fade volume is a Parameter<Decibels> created at
+// silence and told, when the sound is constructed on the caller's thread, to move to 0 dB with the user's tween -- start
+// time (immediate / delayed / clock) and duration (zero included) are the tween's.  Until the tween's start time the
+// sound is silent; a zero-duration fade-in is at 0 dB one update after its start; in between the law, in decibels.
+// -----------------------------------------------------------------------------------------------------
+fn gen_fade_snd(r: &mut Rng, k: u64) -> SndScen {
+	let ibs = *r.pick(&[8usize, 16, 32]);
+	let streaming = k % 2 == 1;
+	// every other scenario: zero duration with a start time that is several updates away
+	let pending_zero = (k / 2) % 2 == 0;
+	let start = match (pending_zero, r.below(4)) {
+		(false, 0) => Start::Imm,
+		(_, 1) => Start::Clk { clock: 0, ticks: r.below(6) + 2, fr: if r.chance(1, 2) { 0.0 } else { 0.5 } },
+		_ => Start::Del((r.below(90) + 2 * ibs as u64 + 8) * 976_562 + r.below(2) * 500),
+	};
+	let dur_ns = if pending_zero {
+		0
+	} else {
+		match r.below(5) {
+			0 => 0,
+			1 => r.below(900_000) + 1,
+			2 => (r.below(12) + 2) * 7_812_500,
+			_ => (r.below(100) + 16) * 976_562 + r.below(1000),
+		}
+	};
+	let easing = match r.below(5) {
+		0 => Easing::InPowi(2),
+		1 => Easing::OutPowi(2),
+		_ => Easing::Linear,
+	};
+	let mut cbs = vec![];
+	// callbacks until well past the start and the end of the fade-in (at most ~100 + 116 frames), in random partitions
+	let mut total = 0usize;
+	let mut first = true;
+	while total < 260 {
+		let frames = if first { r.below(6) as usize + 1 } else { gen_frames(r, ibs, 3) };
+		first = false;
+		total += frames;
+		cbs.push(SCb { until_audible: false, cmds: if r.chance(1, 8) { gen_param_cmds(r, false) } else { vec![] }, frames });
+	}
+	SndScen {
+		streaming,
+		ibs,
+		src: 0.5,
+		vol0: *r.pick(&[0.0f32, 0.0, -6.0]),
+		rate0: *r.pick(&[1.0f64, 1.0, 0.5, 2.0]),
+		pan0: *r.pick(&[0.0f32, 0.0, 0.25]),
+		st: Start::Imm,
+		fade_in: Some(OTw { start, dur_ns, easing }),
+		mode: "fade_in",
+		cbs,
+	}
+}
+fn owners_fade_in(s: &mut Session, rng: &mut Rng, n: u64) {
+	s.flush();
+	s.shard_size = 4;
+	for k in 0..n {
+		let sc = gen_fade_snd(rng, k);
+		let tr = run_snd(&sc);
+		let term = snd_term(&sc, &tr);
+		s.case(if sc.streaming { "owner_streaming_sound_fade_in" } else { "owner_static_sound_fade_in" }, term.clone(), &snd_obs(&tr), Some(hash_key(&term)));
+		let f = sc.fade_in.as_ref().unwrap();
+		s.count(if f.dur_ns == 0 && !matches!(f.start, Start::Imm) { "fade_in_zero_duration_start_pending" } else if f.dur_ns == 0 { "fade_in_zero_duration_immediate" } else { "fade_in_nonzero_duration" });
+		if tr.panicked.is_some() {
+			s.fail(format!("{sc:?}"), "panic while driving a sound with a fade-in tween through the manager".into(), None);
+			continue;
+		}
+		let mut checks = (0, 0, 0);
+		let fails = snd_monitor(&sc, &tr, &mut checks);
+		*s.hist.entry("fade_in_chunk_end_frames_judged".into()).or_insert(0) += checks.0;
+		for f in fails {
+			s.fail(format!("{} sound of constant amplitude played with a fade-in tween on the main track, 1024 Hz, internal buffer {}: {:?}", if sc.streaming { "streaming" } else { "static" }, sc.ibs, sc), f, None);
+		}
+	}
+}
+
+/// (c') a clock whose speed is tweened between the three units of `ClockSpeed`; the law is stated in the unit of the target
+fn gen_ren_speed(r: &mut Rng) -> RenScen {
+	let ibs = *r.pick(&[8usize, 16, 32]);
+	let mut cbs = vec![];
+	let n = r.range(6, 12);
+	for k in 0..n {
+		let mut cmds = vec![];
+		if k == 0 || r.chance(1, 3) {
+			let unit = r.below(3) as u8;
+			let tps = *r.pick(&[1.0, 2.0, 10.0, 64.0, 100.5, 0.25, 16.0]);
+			let v = match unit {
+				0 => 1.0 / tps,
+				1 => tps,
+				_ => tps * 60.0,
+			};
+			let mut t = gen_rtw(r);
+			if r.chance(1, 2) {
+				t.start = Start::Imm;
+			}
+			cmds.push(RCmd::ClockSpeed(unit, v, t));
+		}
+		let frames = match r.below(5) {
+			0 => 1,
+			1 => ibs,
+			2 => ibs + 1 + r.below(ibs as u64 - 1) as usize,
+			_ => r.below(3 * ibs as u64) as usize + 1,
+		};
+		cbs.push(RCb { cmds, frames });
+	}
+	RenScen { ibs, tw_init: 0.5, lfo_amp0: 1.0, lfo_off0: 0.25, lfo_freq0: 2.0, speed0: *r.pick(&[2.0, 64.0, 10.0]), lis0: 1.5, cbs }
+}
+fn owners_clock_speed(s: &mut Session, rng: &mut Rng, n: u64) {
+	for _ in 0..n {
+		let sc = gen_ren_speed(rng);
+		let tr = run_ren(&sc);
+		s.eval_only("owner_clock_speed_units");
+		if tr.panicked.is_some() {
+			s.fail(format!("{sc:?}"), "panic while tweening a clock's speed through the manager".into(), None);
+			continue;
+		}
+		let mut checks = 0;
+		let fails = ren_monitor(&sc, &tr, &mut checks);
+		*s.hist.entry("clock_speed_chunks_judged".into()).or_insert(0) += checks;
+		for f in fails {
+			s.fail(format!("a clock whose speed is tweened (seconds per tick / ticks per second / ticks per minute) on a manager at 1024 Hz, internal buffer {}: {:?}", sc.ibs, sc), f, None);
+		}
+	}
+}
+
 fn owners(s: &mut Session, rng: &mut Rng, args: &Args) {
 	let mul = args.budget_mul * if args.thorough { 8 } else { 1 };
 	// Rng::new(seed) and Rng::new(seed + 1) are the same stream shifted by one: continue from a scrambled state
@@ -2240,4 +2585,8 @@ fn owners(s: &mut Session, rng: &mut Rng, args: &Args) {
 	owners_renderer(s, rng, 40 * mul);
 	owners_distance(s, rng, 40 * mul);
 	late_parameter_witness(s);
+	// added later, on a stream of their own (the scenarios above keep theirs)
+	let rng2 = &mut Rng::new(args.seed ^ 0xC06_FADE).fork();
+	owners_clock_speed(s, rng2, 40 * mul);
+	owners_fade_in(s, rng2, 16 * mul);
 }
